@@ -63,4 +63,10 @@ CHECKS = [
     chk("C13", "acmed-sim", "exploration",
         "invariant at the storage seam, which performs the real open(2)/chown(2): every file written in seeded create/rewrite/restart histories is stat(2)ed; mode at creation == configured & ~umask, unchanged by rewrites; owner as configured by name or number",
         TRUST + "; runs as root in the sandbox; weakest fit for the technique (no schedule or fault in the statement)", SIM + "; invariant over seeded histories", "DESIGN.md 7 (C13)"),
+    dict(chk("C16", "tacd-sim", "exploration",
+        "each run starts the real tacd binary (shadow build, shipped profile) with drawn arguments -- domain (ASCII/IDN/mixed case, 1..5 labels), 32-byte digest rendered through the acmeIdentifier text format, key type x digest x input source (flag, file, stdin) as an exhaustive grid plus seeded samples -- and an inspecting OpenSSL client on the simulated transport judges the handshake: ALPN acme-tls/1 negotiated, certificate self-signed and currently valid, exactly one SAN == A-label by the harness's own IDNA, acmeIdentifier critical with exactly the digest (own DER walk), key type; clients offering only other protocols must be refused",
+        "trusted base: OpenSSL (client and server), the harness's IDNA and DER walker; the real TCP/unix listeners are a stub; weak fit for the technique (no fault or schedule in the statement), claimed because its oracle is the simulated peer C17 needs anyway", "deterministic simulation (real tacd process over a simulated listener with a scripted, seeded client); seeded input exploration + exhaustive option grid", "DESIGN.md 7 (C16)"), engine="tacd-sim"),
+    dict(chk("C17", "tacd-sim", "fault_enumeration",
+        "every ordered selection of <= 2 (quick) / <= 3 (thorough) connection behaviours from a catalogue of 9 (connect+close, garbage, plain HTTP, TLS without ALPN, TLS with foreign ALPN, abandoned after ClientHello, 50 concurrent stalled connections, byte-at-a-time delivery, reset mid-record), plus sampled histories of length 3-4, sequential or overlapping under a seeded scheduler that releases one parked handler thread at a time; then a valid acme-tls/1 handshake judged by C16's oracle; the run is one real tacd process in the shipped panic=abort profile: death by signal or a wrong final answer is the violation",
+        "trusted base: OpenSSL, the SimListener/SimStream seam (handler threads are real, their interleaving is decided by the simulator); the shipped panic strategy is read from /repo/Cargo.toml at build time", "deterministic simulation with fault injection (hostile connection histories on a simulated transport against the real tacd process); exhaustive short histories + seeded longer ones", "DESIGN.md 7 (C17)"), engine="tacd-sim"),
 ]
